@@ -2,7 +2,7 @@
    panic, result = integer arithmetic mod P) for every modulus satisfying [ff_ok], discharge
    of [ff_ok] for every exported prime, and the commutative-semiring / ring / lattice laws of
    every shipped weight type. *)
-From Coq Require Import Bool NArith ZArith QArith Qcanon List Arith Lia.
+From Coq Require Import Bool NArith ZArith QArith Qcanon List Arith Lia Ring.
 Import ListNotations.
 From RsddV Require Import Base.Util Generated.Constants Model.Semirings.
 
@@ -488,3 +488,457 @@ Proof.
 Qed.
 
 Local Close Scope Qc_scope.
+
+(* ===================================================================================== *)
+(* Truncated polynomials over any commutative semiring whose laws hold unconditionally     *)
+Local Open Scope nat_scope.
+Section PolyLaws.
+  Context {C : Type} (o : sr_ops C) (L : csr_laws everything o).
+  Local Notation "0!" := (sr_zero o).
+  Local Notation "1!" := (sr_one o).
+  Local Infix "+!" := (sr_add o) (at level 50, left associativity).
+  Local Infix "*!" := (sr_mul o) (at level 40, left associativity).
+
+  Let T : forall a : C, everything a := fun _ => I.
+
+  Lemma c_srt : semi_ring_theory 0! 1! (sr_add o) (sr_mul o) eq.
+  Proof.
+    constructor.
+    - intros n. apply (csr_add_zero _ _ L n (T n)).
+    - intros n m. apply (csr_add_comm _ _ L); apply T.
+    - intros n m p. symmetry. apply (csr_add_assoc _ _ L); apply T.
+    - intros n. apply (csr_mul_one _ _ L n (T n)).
+    - intros n. apply (csr_mul_zero _ _ L n (T n)).
+    - intros n m. apply (csr_mul_comm _ _ L); apply T.
+    - intros n m p. symmetry. apply (csr_mul_assoc _ _ L); apply T.
+    - intros n m p. apply (csr_distr _ _ L p n m); apply T.
+  Qed.
+  Add Ring c_ring : c_srt.
+
+  (* sumn n f = f 0 + ... + f (n-1) *)
+  Fixpoint sumn (n : nat) (f : nat -> C) : C :=
+    match n with O => 0! | S k => sumn k f +! f k end.
+
+  Lemma sumn_S n f : sumn (S n) f = sumn n f +! f n.
+  Proof. reflexivity. Qed.
+
+  Lemma sumn_ext n f g : (forall i, i < n -> f i = g i) -> sumn n f = sumn n g.
+  Proof.
+    induction n as [|n IH]; intros H; cbn [sumn]; [reflexivity|].
+    rewrite IH by (intros; apply H; lia). rewrite H by lia. reflexivity.
+  Qed.
+
+  Lemma sumn_zero n f : (forall i, i < n -> f i = 0!) -> sumn n f = 0!.
+  Proof.
+    induction n as [|n IH]; intros H; cbn [sumn]; [reflexivity|].
+    rewrite IH by (intros; apply H; lia). rewrite H by lia. ring.
+  Qed.
+
+  Lemma sumn_add n f g : sumn n (fun i => f i +! g i) = sumn n f +! sumn n g.
+  Proof. induction n as [|n IH]; cbn [sumn]; [ring | rewrite IH; ring]. Qed.
+
+  Lemma sumn_mul_r n f x : sumn n f *! x = sumn n (fun i => f i *! x).
+  Proof. induction n as [|n IH]; cbn [sumn]; [ring | rewrite <- IH; ring]. Qed.
+
+  Lemma sumn_mul_l n f x : x *! sumn n f = sumn n (fun i => x *! f i).
+  Proof. induction n as [|n IH]; cbn [sumn]; [ring | rewrite <- IH; ring]. Qed.
+
+  (* a sum whose terms vanish from n on *)
+  Lemma sumn_more n m f : n <= m -> (forall i, n <= i -> i < m -> f i = 0!) -> sumn m f = sumn n f.
+  Proof.
+    intros Hle. induction m as [|m IH]; intros H.
+    - replace n with 0 by lia. reflexivity.
+    - destruct (Nat.eq_dec n (S m)) as [E|E]; [subst; reflexivity|].
+      cbn [sumn]. rewrite IH by (try lia; intros; apply H; lia). rewrite H by lia. ring.
+  Qed.
+
+  Lemma sumn_delta n t g :
+    sumn n (fun j => if Nat.eqb j t then g j else 0!) = if Nat.ltb t n then g t else 0!.
+  Proof.
+    induction n as [|n IH]; cbn [sumn]; [reflexivity|]. rewrite IH.
+    destruct (Nat.eqb_spec n t) as [E|E].
+    - subst. replace (Nat.ltb t t) with false by (symmetry; apply Nat.ltb_irrefl).
+      replace (Nat.ltb t (S t)) with true by (symmetry; apply Nat.ltb_lt; lia). ring.
+    - destruct (Nat.ltb_spec t n) as [A|A].
+      + replace (Nat.ltb t (S n)) with true by (symmetry; apply Nat.ltb_lt; lia). ring.
+      + replace (Nat.ltb t (S n)) with false by (symmetry; apply Nat.ltb_ge; lia). ring.
+  Qed.
+
+  Lemma sumn_rev n f : sumn n f = sumn n (fun i => f (n - 1 - i)).
+  Proof.
+    revert f. induction n as [|n IH]; intros f; [reflexivity|].
+    (* peel the first term of the right-hand side *)
+    assert (forall m g, sumn (S m) g = g 0 +! sumn m (fun i => g (S i))) as shift.
+    { induction m as [|m IHm]; intros g; cbn [sumn]; [ring|].
+      change (sumn m g +! g m) with (sumn (S m) g). rewrite IHm. ring. }
+    rewrite (shift n (fun i => f (S n - 1 - i))). cbn [sumn]. rewrite (IH f).
+    replace (S n - 1 - 0) with n by lia.
+    rewrite (sumn_ext n (fun i => f (S n - 1 - S i)) (fun i => f (n - 1 - i)))
+      by (intros; f_equal; lia).
+    ring.
+  Qed.
+
+  (* exchange of a triangular double sum *)
+  Lemma sumn_triangle n (F : nat -> nat -> C) :
+    sumn n (fun i => sumn (S i) (F i)) =
+    sumn n (fun j => sumn (n - j) (fun l => F (j + l) j)).
+  Proof.
+    induction n as [|n IH]; [reflexivity|]. rewrite !(sumn_S n). rewrite IH.
+    replace (S n - n) with 1 by lia. rewrite (sumn_S 0). cbn [sumn]. replace (n + 0) with n by lia.
+    rewrite (sumn_ext n (fun j => sumn (S n - j) (fun l => F (j + l) j))
+                        (fun j => sumn (n - j) (fun l => F (j + l) j) +! F n j)).
+    - rewrite sumn_add. ring.
+    - intros j Hj. replace (S n - j) with (S (n - j)) by lia. rewrite sumn_S.
+      replace (j + (n - j)) with n by lia. reflexivity.
+  Qed.
+
+  (* ----------------------------------------------------------------------------------- *)
+  (* well-formed values of Polynomial<C>: what zero(), one(), + and * produce *)
+  Definition pwf (p : poly C) : Prop :=
+    length (coeffs p) = MAXC /\ plen p <= MAXC /\ forall i, plen p <= i -> cf o p i = 0!.
+
+  (* breaks if MAX_COEFFS is ever set to 0 in the source *)
+  Lemma MAXC_pos : 1 <= MAXC.
+  Proof. unfold MAXC, max_coeffs. lia. Qed.
+
+  Lemma zeros_length : length (zeros o) = MAXC.
+  Proof. apply repeat_length. Qed.
+
+  Lemma zeros_nth k : nth k (zeros o) 0! = 0!.
+  Proof. unfold zeros. rewrite nth_repeat_lt. destruct (Nat.ltb k MAXC); reflexivity. Qed.
+
+  Lemma cf_overflow p k : length (coeffs p) <= k -> cf o p k = 0!.
+  Proof. intros H. unfold cf. apply nth_overflow. exact H. Qed.
+
+  Lemma poly_ext p q : pwf p -> pwf q -> plen p = plen q ->
+    (forall k, k < MAXC -> cf o p k = cf o q k) -> p = q.
+  Proof.
+    intros [Lp _] [Lq _] Hl H. destruct p as [cp lp], q as [cq lq]. cbn [coeffs plen] in *. subst lq.
+    f_equal. apply nth_ext with (d := 0!) (d' := 0!); [congruence|].
+    intros n Hn. apply H. lia.
+  Qed.
+
+  (* --- addition --- *)
+  Lemma fold_set_length (g : nat -> C) n l :
+    length (fold_left (fun acc i => set_nth acc i (g i)) (seq 0 n) l) = length l.
+  Proof.
+    induction n as [|n IH]; [reflexivity|].
+    rewrite seq_S, fold_left_app. cbn [fold_left]. rewrite length_set_nth. exact IH.
+  Qed.
+
+  Lemma fold_set_nth (g : nat -> C) n l k : n <= length l ->
+    nth k (fold_left (fun acc i => set_nth acc i (g i)) (seq 0 n) l) 0! =
+    if Nat.ltb k n then g k else nth k l 0!.
+  Proof.
+    induction n as [|n IH]; intros H; [reflexivity|].
+    rewrite seq_S, fold_left_app. cbn [fold_left]. rewrite Nat.add_0_l.
+    destruct (Nat.eq_dec k n) as [E|E].
+    - subst k. rewrite nth_set_nth_eq by (rewrite fold_set_length; lia).
+      replace (Nat.ltb n (S n)) with true by (symmetry; apply Nat.ltb_lt; lia). reflexivity.
+    - rewrite nth_set_nth_neq by auto. rewrite IH by lia.
+      destruct (Nat.ltb_spec k n) as [A|A].
+      + replace (Nat.ltb k (S n)) with true by (symmetry; apply Nat.ltb_lt; lia). reflexivity.
+      + replace (Nat.ltb k (S n)) with false by (symmetry; apply Nat.ltb_ge; lia). reflexivity.
+  Qed.
+
+  Lemma padd_cf_raw a b k :
+    cf o (padd o a b) k =
+    if Nat.ltb k (Nat.min (Nat.max (plen a) (plen b)) MAXC) then cf o a k +! cf o b k else 0!.
+  Proof.
+    unfold padd. unfold cf at 1. cbn [coeffs].
+    rewrite fold_set_nth by (rewrite zeros_length; apply Nat.le_min_r).
+    rewrite zeros_nth. reflexivity.
+  Qed.
+
+  Lemma padd_wf a b : pwf (padd o a b).
+  Proof.
+    split; [|split].
+    - unfold padd. cbn [coeffs]. rewrite fold_set_length. apply zeros_length.
+    - unfold padd. cbn [plen]. apply Nat.le_min_r.
+    - intros i Hi. rewrite padd_cf_raw. unfold padd in Hi. cbn [plen] in Hi.
+      replace (Nat.ltb i _) with false by (symmetry; apply Nat.ltb_ge; lia). reflexivity.
+  Qed.
+
+  Lemma padd_plen a b : pwf a -> pwf b -> plen (padd o a b) = Nat.max (plen a) (plen b).
+  Proof. intros [_ [A _]] [_ [B _]]. unfold padd. cbn [plen]. lia. Qed.
+
+  Lemma padd_cf a b k : pwf a -> pwf b -> cf o (padd o a b) k = cf o a k +! cf o b k.
+  Proof.
+    intros [_ [A Za]] [_ [B Zb]]. rewrite padd_cf_raw.
+    destruct (Nat.ltb_spec k (Nat.min (Nat.max (plen a) (plen b)) MAXC)) as [H|H]; [reflexivity|].
+    rewrite Za, Zb by lia. ring.
+  Qed.
+
+  (* --- multiplication --- *)
+  Definition tm (a b : poly C) (i j k : nat) : C :=
+    if Nat.eqb (i + j) k then cf o a i *! cf o b j else 0!.
+
+  Lemma inner_length a b i m acc :
+    length (fold_left (pmul_step o a b i) (seq 0 m) acc) = length acc.
+  Proof.
+    induction m as [|m IH]; [reflexivity|].
+    rewrite seq_S, fold_left_app. cbn [fold_left]. unfold pmul_step at 1.
+    destruct (Nat.ltb (i + (0 + m)) MAXC); [rewrite length_set_nth|]; exact IH.
+  Qed.
+
+  Lemma inner_nth a b i m acc k : length acc = MAXC -> k < MAXC ->
+    nth k (fold_left (pmul_step o a b i) (seq 0 m) acc) 0! =
+    nth k acc 0! +! sumn m (fun j => tm a b i j k).
+  Proof.
+    intros Hl Hk. induction m as [|m IH]; [cbn [seq fold_left sumn]; ring|].
+    rewrite seq_S, fold_left_app. cbn [fold_left]. rewrite Nat.add_0_l, sumn_S.
+    unfold pmul_step at 1. unfold tm at 2.
+    destruct (Nat.ltb_spec (i + m) MAXC) as [A|A].
+    - destruct (Nat.eqb_spec (i + m) k) as [E|E].
+      + subst k. rewrite nth_set_nth_eq by (rewrite inner_length; lia). rewrite IH. ring.
+      + rewrite nth_set_nth_neq by auto. rewrite IH. ring.
+    - destruct (Nat.eqb_spec (i + m) k) as [E|E]; [lia|]. rewrite IH. ring.
+  Qed.
+
+  Definition outer (a b : poly C) (m n : nat) (acc : list C) : list C :=
+    fold_left (fun acc i => fold_left (pmul_step o a b i) (seq 0 m) acc) (seq 0 n) acc.
+
+  Lemma outer_S a b m n acc :
+    outer a b m (S n) acc = fold_left (pmul_step o a b n) (seq 0 m) (outer a b m n acc).
+  Proof. unfold outer. rewrite seq_S, fold_left_app. reflexivity. Qed.
+
+  Lemma outer_length a b m n acc : length (outer a b m n acc) = length acc.
+  Proof.
+    induction n as [|n IH]; [reflexivity|]. rewrite outer_S, inner_length. exact IH.
+  Qed.
+
+  Lemma outer_nth a b m n acc k : length acc = MAXC -> k < MAXC ->
+    nth k (outer a b m n acc) 0! =
+    nth k acc 0! +! sumn n (fun i => sumn m (fun j => tm a b i j k)).
+  Proof.
+    intros Hl Hk. induction n as [|n IH]; [cbn [outer seq fold_left sumn]; ring|].
+    rewrite outer_S, sumn_S.
+    rewrite inner_nth by (try assumption; rewrite outer_length; exact Hl).
+    rewrite IH. ring.
+  Qed.
+
+  (* coefficient k of the untruncated product *)
+  Definition conv (a b : poly C) (k : nat) : C := sumn (S k) (fun i => cf o a i *! cf o b (k - i)).
+
+  Lemma conv_zero a b k : pwf a -> pwf b ->
+    (forall j, j <= k -> plen a <= j \/ plen b <= k - j) -> conv a b k = 0!.
+  Proof.
+    intros [_ [_ Za]] [_ [_ Zb]] H. unfold conv. apply sumn_zero. intros j Hj.
+    destruct (H j ltac:(lia)) as [A|A]; [rewrite Za by exact A | rewrite Zb by exact A]; ring.
+  Qed.
+
+  Lemma conv2_conv a b k : pwf a -> pwf b ->
+    sumn (plen a) (fun i => sumn (plen b) (fun j => tm a b i j k)) = conv a b k.
+  Proof.
+    intros [_ [_ Za]] [_ [_ Zb]].
+    set (h := fun i => cf o a i *! cf o b (k - i)).
+    rewrite (sumn_ext (plen a) _ (fun i => if Nat.leb i k then h i else 0!)).
+    2:{ intros i _. destruct (Nat.leb_spec i k) as [A|A].
+        - rewrite (sumn_ext (plen b) _ (fun j => if Nat.eqb j (k - i) then cf o a i *! cf o b j else 0!)).
+          + rewrite sumn_delta. unfold h.
+            destruct (Nat.ltb_spec (k - i) (plen b)) as [B|B]; [reflexivity|].
+            rewrite (Zb (k - i)) by lia. ring.
+          + intros j _. unfold tm.
+            destruct (Nat.eqb_spec (i + j) k), (Nat.eqb_spec j (k - i)); try reflexivity; lia.
+        - apply sumn_zero. intros j _. unfold tm.
+          destruct (Nat.eqb_spec (i + j) k); [lia | reflexivity]. }
+    set (F := fun i => if Nat.leb i k then h i else 0!).
+    set (N := Nat.max (plen a) (S k)).
+    rewrite <- (sumn_more (plen a) N F) by
+      (try (unfold N; lia); intros i A _; unfold F, h; rewrite Za by lia;
+       destruct (Nat.leb i k); ring).
+    rewrite (sumn_more (S k) N F) by
+      (try (unfold N; lia); intros i A _; unfold F;
+       replace (Nat.leb i k) with false by (symmetry; apply Nat.leb_gt; lia); reflexivity).
+    unfold conv. apply sumn_ext. intros i Hi. unfold F.
+    replace (Nat.leb i k) with true by (symmetry; apply Nat.leb_le; lia). reflexivity.
+  Qed.
+
+  (* the len field of a product, as coded *)
+  Definition mlen (la lb : nat) : nat :=
+    if Nat.eqb la 0 || Nat.eqb lb 0 then 0 else Nat.min (la + lb - 1) MAXC.
+
+  Lemma pmul_plen a b : plen (pmul o a b) = mlen (plen a) (plen b).
+  Proof. unfold pmul, mlen. destruct (Nat.eqb (plen a) 0 || Nat.eqb (plen b) 0); reflexivity. Qed.
+
+  Lemma pmul_length a b : length (coeffs (pmul o a b)) = MAXC.
+  Proof.
+    unfold pmul. destruct (Nat.eqb (plen a) 0 || Nat.eqb (plen b) 0); cbn [coeffs pzero].
+    - apply zeros_length.
+    - etransitivity; [apply (outer_length a b (plen b) (plen a) (zeros o)) | apply zeros_length].
+  Qed.
+
+  (* the nested loops compute the convolution, truncated at MAX_COEFFS *)
+  Lemma pmul_cf a b k : pwf a -> pwf b -> k < MAXC -> cf o (pmul o a b) k = conv a b k.
+  Proof.
+    intros Wa Wb Hk. unfold pmul.
+    destruct (Nat.eqb (plen a) 0 || Nat.eqb (plen b) 0) eqn:E.
+    - unfold cf at 1. cbn [coeffs pzero]. rewrite zeros_nth. symmetry.
+      apply conv_zero; auto. intros j Hj. apply orb_true_iff in E.
+      destruct E as [E|E]; apply Nat.eqb_eq in E; lia.
+    - unfold cf at 1. cbn [coeffs].
+      etransitivity; [apply (outer_nth a b (plen b) (plen a) (zeros o) k); auto using zeros_length|].
+      rewrite zeros_nth, conv2_conv by auto. ring.
+  Qed.
+
+  Lemma pmul_wf a b : pwf a -> pwf b -> pwf (pmul o a b).
+  Proof.
+    intros Wa Wb. split; [apply pmul_length | split].
+    - rewrite pmul_plen. unfold mlen. destruct (_ || _); lia.
+    - intros i Hi. destruct (Nat.lt_ge_cases i MAXC) as [A|A].
+      + rewrite pmul_cf by auto. apply conv_zero; auto. intros j Hj.
+        rewrite pmul_plen in Hi. unfold mlen in Hi.
+        destruct (Nat.eqb_spec (plen a) 0); [lia|]. destruct (Nat.eqb_spec (plen b) 0); [lia|].
+        cbn [orb] in Hi. lia.
+      + apply cf_overflow. rewrite pmul_length. exact A.
+  Qed.
+
+  Lemma pzero_wf : pwf (pzero o).
+  Proof.
+    split; [apply zeros_length | split; [cbn; lia|]]. intros i _. unfold cf. cbn [coeffs pzero].
+    apply zeros_nth.
+  Qed.
+
+  Lemma pzero_cf k : cf o (pzero o) k = 0!.
+  Proof. unfold cf. cbn [coeffs pzero]. apply zeros_nth. Qed.
+
+  Lemma pone_cf k : cf o (pone o) k = if Nat.eqb k 0 then 1! else 0!.
+  Proof.
+    unfold cf. cbn [coeffs pone]. destruct (Nat.eqb_spec k 0) as [E|E].
+    - subst. apply nth_set_nth_eq. rewrite zeros_length. apply MAXC_pos.
+    - rewrite nth_set_nth_neq by auto. apply zeros_nth.
+  Qed.
+
+  Lemma pone_wf : pwf (pone o).
+  Proof.
+    split; [|split].
+    - cbn [coeffs pone]. rewrite length_set_nth. apply zeros_length.
+    - cbn [plen pone]. apply MAXC_pos.
+    - intros i Hi. cbn [plen pone] in Hi. rewrite pone_cf.
+      destruct (Nat.eqb_spec i 0); [lia | reflexivity].
+  Qed.
+
+  (* --- the laws --- *)
+  Lemma padd_assoc a b c : pwf a -> pwf b -> pwf c ->
+    padd o (padd o a b) c = padd o a (padd o b c).
+  Proof.
+    intros Wa Wb Wc. apply poly_ext; try apply padd_wf.
+    - rewrite !padd_plen by (auto using padd_wf). lia.
+    - intros k _. rewrite !padd_cf by (auto using padd_wf). ring.
+  Qed.
+
+  Lemma padd_comm a b : pwf a -> pwf b -> padd o a b = padd o b a.
+  Proof.
+    intros Wa Wb. apply poly_ext; try apply padd_wf.
+    - rewrite !padd_plen by auto. lia.
+    - intros k _. rewrite !padd_cf by auto. ring.
+  Qed.
+
+  Lemma padd_zero a : pwf a -> padd o (pzero o) a = a /\ padd o a (pzero o) = a.
+  Proof.
+    intros Wa. pose proof pzero_wf as Wz.
+    assert (padd o (pzero o) a = a) as E.
+    { apply poly_ext; auto using padd_wf.
+      - rewrite padd_plen by auto. cbn [plen pzero]. lia.
+      - intros k _. rewrite padd_cf by auto. rewrite pzero_cf. ring. }
+    split; [exact E | rewrite padd_comm by auto; exact E].
+  Qed.
+
+  Lemma mlen_comm la lb : mlen la lb = mlen lb la.
+  Proof. unfold mlen. rewrite orb_comm. replace (lb + la) with (la + lb) by lia. reflexivity. Qed.
+
+  Lemma mlen_assoc la lb lc : mlen (mlen la lb) lc = mlen la (mlen lb lc).
+  Proof.
+    pose proof MAXC_pos. unfold mlen.
+    destruct (Nat.eqb_spec la 0), (Nat.eqb_spec lb 0), (Nat.eqb_spec lc 0); cbn [orb];
+      repeat match goal with |- context [Nat.eqb ?x 0] => destruct (Nat.eqb_spec x 0); cbn [orb] end;
+      lia.
+  Qed.
+
+  Lemma mlen_distr la lb lc : lb <= MAXC -> lc <= MAXC ->
+    mlen la (Nat.max lb lc) = Nat.max (mlen la lb) (mlen la lc).
+  Proof.
+    pose proof MAXC_pos. intros Hb Hc. unfold mlen.
+    destruct (Nat.eqb_spec la 0), (Nat.eqb_spec lb 0), (Nat.eqb_spec lc 0); cbn [orb];
+      repeat match goal with |- context [Nat.eqb ?x 0] => destruct (Nat.eqb_spec x 0); cbn [orb] end;
+      lia.
+  Qed.
+
+  Lemma conv_comm a b k : conv a b k = conv b a k.
+  Proof.
+    unfold conv. rewrite sumn_rev. apply sumn_ext. intros i Hi.
+    replace (S k - 1 - i) with (k - i) by lia. replace (k - (k - i)) with i by lia. ring.
+  Qed.
+
+  Lemma pmul_comm a b : pwf a -> pwf b -> pmul o a b = pmul o b a.
+  Proof.
+    intros Wa Wb. apply poly_ext; auto using pmul_wf.
+    - rewrite !pmul_plen. apply mlen_comm.
+    - intros k Hk. rewrite !pmul_cf by auto. apply conv_comm.
+  Qed.
+
+  Lemma pmul_assoc a b c : pwf a -> pwf b -> pwf c ->
+    pmul o (pmul o a b) c = pmul o a (pmul o b c).
+  Proof.
+    intros Wa Wb Wc. apply poly_ext; auto using pmul_wf.
+    - rewrite !pmul_plen. apply mlen_assoc.
+    - intros k Hk. rewrite !pmul_cf by (auto using pmul_wf). unfold conv.
+      (* left: sum_i (sum_{j<=i} a_j b_{i-j}) c_{k-i} *)
+      rewrite (sumn_ext (S k) _ (fun i => sumn (S i) (fun j => cf o a j *! cf o b (i - j) *! cf o c (k - i)))).
+      2:{ intros i Hi. rewrite pmul_cf by (auto; lia). unfold conv. apply sumn_mul_r. }
+      rewrite (sumn_triangle (S k) (fun i j => cf o a j *! cf o b (i - j) *! cf o c (k - i))).
+      apply sumn_ext. intros j Hj. rewrite pmul_cf by (auto; lia). unfold conv.
+      rewrite sumn_mul_l. replace (S k - j) with (S (k - j)) by lia.
+      apply sumn_ext. intros l Hl.
+      replace (j + l - j) with l by lia. replace (k - (j + l)) with (k - j - l) by lia. ring.
+  Qed.
+
+  Lemma pmul_one a : pwf a -> pmul o (pone o) a = a /\ pmul o a (pone o) = a.
+  Proof.
+    intros Wa. pose proof pone_wf as W1.
+    assert (pmul o (pone o) a = a) as E.
+    { apply poly_ext; auto using pmul_wf.
+      - rewrite pmul_plen. cbn [plen pone]. destruct Wa as [_ [A _]]. unfold mlen.
+        cbn [Nat.eqb orb]. destruct (Nat.eqb_spec (plen a) 0); lia.
+      - intros k Hk. rewrite pmul_cf by auto. unfold conv.
+        rewrite (sumn_ext (S k) _ (fun i => if Nat.eqb i 0 then 1! *! cf o a (k - i) else 0!)).
+        + rewrite sumn_delta. cbn [Nat.ltb Nat.leb]. replace (k - 0) with k by lia. ring.
+        + intros i _. rewrite pone_cf. destruct (Nat.eqb i 0); ring. }
+    split; [exact E | rewrite pmul_comm by auto; exact E].
+  Qed.
+
+  Lemma pmul_zero a : pmul o (pzero o) a = pzero o /\ pmul o a (pzero o) = pzero o.
+  Proof.
+    split; unfold pmul; cbn [plen pzero Nat.eqb orb]; [reflexivity|].
+    rewrite orb_true_r. reflexivity.
+  Qed.
+
+  Lemma pmul_distr_l a b c : pwf a -> pwf b -> pwf c ->
+    pmul o a (padd o b c) = padd o (pmul o a b) (pmul o a c).
+  Proof.
+    intros Wa Wb Wc. apply poly_ext; auto using pmul_wf, padd_wf.
+    - rewrite pmul_plen, !padd_plen, !pmul_plen by (auto using pmul_wf).
+      destruct Wb as [_ [B _]], Wc as [_ [Cc _]]. apply mlen_distr; auto.
+    - intros k Hk. rewrite padd_cf, !pmul_cf by (auto using pmul_wf, padd_wf). unfold conv.
+      rewrite <- sumn_add. apply sumn_ext. intros i Hi. rewrite padd_cf by auto. ring.
+  Qed.
+
+  Theorem poly_laws : csr_laws pwf (poly_ops o).
+  Proof.
+    constructor; cbn [poly_ops sr_add sr_mul sr_zero sr_one].
+    - intros; apply padd_wf.
+    - intros; apply pmul_wf; auto.
+    - apply pzero_wf.
+    - apply pone_wf.
+    - apply padd_assoc.
+    - apply padd_comm.
+    - apply padd_zero.
+    - apply pmul_assoc.
+    - apply pmul_comm.
+    - apply pmul_one.
+    - intros a _. apply pmul_zero.
+    - intros a b c Wa Wb Wc. split; [apply pmul_distr_l; auto|].
+      rewrite (pmul_comm (padd o b c) a), (pmul_comm b a), (pmul_comm c a) by (auto using padd_wf).
+      apply pmul_distr_l; auto.
+  Qed.
+End PolyLaws.
